@@ -220,22 +220,24 @@ func (e *env) codecJobs(variant string, width int, units []unit, pick func(i int
 					}
 				}}
 		}
-		gen = func() drv.Job {
-			for {
-				if len(queue) > 0 {
-					j := queue[0]
-					queue = queue[1:]
-					return j
+		// the encoders (in particular the external tools) run in a producer goroutine so that they overlap with the
+		// server's work; the vacuity counters and the reference self-check stay on the consumer side (worker-local state)
+		type produced struct {
+			u     unit
+			cases []fam.Case
+			err   error
+		}
+		ch := make(chan produced, 6)
+		go func() {
+			defer close(ch)
+			for ; i < len(units); i += e.nw {
+				if e.stop() {
+					return
 				}
-				if i >= len(units) || e.stop() {
-					return nil
-				}
-				idx := i
-				i += e.nw
-				if !pick(idx) {
+				if !pick(i) {
 					continue
 				}
-				u := units[idx]
+				u := units[i]
 				var cases []fam.Case
 				var err error
 				if len(u.s.Tool) > 0 {
@@ -249,6 +251,21 @@ func (e *env) codecJobs(variant string, width int, units []unit, pick func(i int
 				} else {
 					cases, err = enc.Encode(u.s, u.p)
 				}
+				ch <- produced{u, cases, err}
+			}
+		}()
+		gen = func() drv.Job {
+			for {
+				if len(queue) > 0 {
+					j := queue[0]
+					queue = queue[1:]
+					return j
+				}
+				p, ok := <-ch
+				if !ok {
+					return nil
+				}
+				u, cases, err := p.u, p.cases, p.err
 				if err != nil {
 					e.mu.Lock()
 					if !toolErr[u.s.String()] {
